@@ -17,7 +17,12 @@ EXPLANATION = (
     "its slot for every value the guards on the path admit (R25). (3) Length fields: the Snappy preamble is LEB128 on both sides "
     "for every value on either side of a 7-bit boundary (R38); the LZ4 length-extension bytes are emitted exactly while 255 or "
     "more remain and read on exactly after a 255, loops and closed forms alike (R35). "
-    "Decides these clauses - what each element means to the decoder and how each element is spelled by the encoder - on a bounded "
+    "The grid of invalid forms includes length fields whose top bit is set (a literal announcing 2^31 + 1, 2^32 or 2^23 + 1 bytes), 16-bit copy offsets "
+    "with the top bit set on the valid side, and malformed length preambles (cut off after one or three continuation bytes, six bytes long, five continuation bytes "
+    "and nothing else) - also put to carquet_snappy_get_uncompressed_length, which must return the value of every well-formed preamble on either side of each 7-bit "
+    "boundary. Pointer arithmetic is modelled modulo 2^64 and the execution stops at the first access outside the stream or the destination, so a length that went "
+    "negative and a guard that wrapped are seen as what they are. "
+    "(state) the block codecs keep no mutable file-scope or static state: what a compress call emits does not depend on earlier calls - every mutable file-scope variable and static local under src/compression/ is thread-local, never written, or an accepted idempotent lazy table (rule shared with C07). Decides these clauses - what each element means to the decoder and how each element is spelled by the encoder - on a bounded "
     "grid of element forms; it does not decide the encoders' output for arbitrary data (which matches they find, the end-of-block "
     "literal rules as a consequence of the match finder), nor acceptance of every valid stream outside the grid.")
 
@@ -27,6 +32,9 @@ LZ = "src/compression/lz4.c"
 
 def run(ctx):
     P = ctx.P
+    ctx.clause("C10.7 the block codecs keep no mutable file-scope or static state: what a compress call emits does not depend on earlier calls (rule shared with C07)")
+    from . import C07 as _c07
+    ctx.count("file_scope_variables_examined", _c07.global_state(ctx, scope="src/compression/", rule="R7.codec-state"))
     for f in (SN, LZ):
         if not P.funcs_in(f):
             raise AnalysisBroken("%s has no functions" % f)
